@@ -6,7 +6,8 @@
   and the insert paths of `Handler::query_program`: `Statement::Insert` (handler.rs:2598-2686: validate,
   then insert, all or nothing), `Statement::Update` (:2990-…: after the repair every tuple to be inserted
   is validated before any delete/insert; then delete/insert per binding),
-  `Statement::Fact` (:2687-2722: request-local fact, NO validation, visible to the request's queries).
+  `Statement::Fact` (request-local fact: after the repair validated like an insert, then visible to the
+  request's queries).
   Spec `conforms` is written from docs/spec/types.md ("Type in Schemas", "Timestamps", "Type Coercion").
 -/
 import ILV.Model.Value
@@ -120,7 +121,10 @@ def SState.step (s : SState) : SOp → SState × SOut
     -- every tuple the update would insert is validated before any data is touched
     else if !validateBatch s.schema [new] then (s, .rejected)
     else ({ s with stored := [new] }, .updated s.stored.length 1)
-  | .fact t => (s, .rows (insertSet s.stored [t]).1)
+  | .fact t =>
+    -- a request-local fact must pass the relation's schema; a rejected fact is dropped, the query still runs
+    if !validateBatch s.schema [t] then (s, .rows s.stored)
+    else (s, .rows (insertSet s.stored [t]).1)
   | .validate ts => (s, if validateBatch s.schema ts then .ok else .rejected)
   | .query => (s, .rows s.stored)
 
